@@ -254,6 +254,21 @@ def _build(tier: str):
     return build
 
 
+def _assign_then_view_edit():
+    """C10's whole-field-assignment enumeration, continued by one edit through a value view of the DONOR model: if the copied list still
+    notifies the donor's views, that edit replaces or removes the wrong sibling (round 8, seed C03-h)."""
+    from vf.props import c10
+    views = {'Note': ('tags', 'str', 'zz'), 'Transaction': ('tags', 'str', 'zz'), 'Open': ('currencies', 'str', 'CHF'), 'Custom': None}
+    for case in c10._enum_assign():
+        a = case['ops'][0]
+        v = views.get(a['cls'])
+        if v is None or case['ops'][2]['mi'] != a['mi']:
+            continue
+        donor = a['src']['mi']
+        for last in ({'op': 'set', 'i': 0, 'vals': [{'vt': v[1], 'v': v[2]}]}, {'op': 'pop', 'i': 0, 'vals': []}, {'op': 'del', 'i': -1, 'vals': []}):   # ('vals' marks a value-view operation for the resolver)
+            yield {**case, 'ops': case['ops'][:2] + [{'f': 'view', 'cls': a['cls'], 'mi': donor, 'prop': v[0], **last}]}
+
+
 def jobs(tier: str) -> list[Job]:
     from vf.props import c10
     return [Job('programs', 'hyp', lambda: _build(tier), 3000 if tier == 'quick' else 100000),
@@ -262,4 +277,5 @@ def jobs(tier: str) -> list[Job]:
             Job('aliasing-histories', 'hyp', lambda: c10._build(tier), 2000 if tier == 'quick' else 60000),
             Job('list-sweep', 'enum', sweeps.list_sweep, exhaustive=True),
             Job('slot-sweep', 'enum', sweeps.slot_sweep, exhaustive=True),
-            Job('insert-then-edit', 'enum', sweeps.insert_then_edit, exhaustive=True)]
+            Job('insert-then-edit', 'enum', sweeps.insert_then_edit, exhaustive=True),
+            Job('assign-then-view-edit', 'enum', _assign_then_view_edit, exhaustive=True)]
